@@ -87,6 +87,8 @@ pub use ohkami_lib::stream::{self, Stream, StreamExt};
 /// # ;
 /// ```
 #[inline] pub fn unix_timestamp() -> u64 {
+    #[cfg(ohkami_verif)]
+    if let Some(fixed) = crate::__verif__::fixed_clock() {return fixed}
     std::time::SystemTime::now()
         .duration_since(std::time::UNIX_EPOCH)
         .unwrap()
